@@ -38,6 +38,8 @@ def install_invariant():
 def plan(tier, seed):
     q = tier == "quick"
     specs = ec.plan_e2e(seed, 13, MIX, 90 if q else 1200, nwcap=12 if q else 24)
+    if not q:
+        specs += ec.fixture_specs()
     nh = 1500 if q else 40000
     parts = 14 if q else 32
     for p, n in enumerate(common.split_counts(nh, parts)):
@@ -50,7 +52,7 @@ def nontrivial(run, I):
 
 
 def run_shard(spec, res):
-    if spec["what"] == "e2e":
+    if spec["what"] in ("e2e", "fixture"):
         install_invariant()
         before = EVALS["n"]
         ec.run_e2e_shard(spec, res, PROPS, nontrivial)
